@@ -24,7 +24,7 @@ pub fn lending_config(with_plain: bool, rng: &mut Rng) -> Config {
     } else {
         Config::default()
     };
-    cfg.specials = vec![Special::LendA, Special::LendB, Special::LendMut, Special::Lent { id: LENT_ID }, Special::LendClone];
+    cfg.specials = vec![Special::LendA, Special::LendB, Special::LendMut, Special::Lent { id: LENT_ID }, Special::LendClone, Special::LendZ];
     cfg
 }
 
@@ -51,12 +51,13 @@ pub fn gen_c13(base_seed: u64, batch: &str, run: u64, rng: &mut Rng) -> Scenario
             for _ in 0..n_steps {
                 match rng.weighted(&[60, 10, if exclusive { 20 } else { 0 }, 10, if exclusive { 15 } else { 0 }]) {
                     0 => {
-                        let kind = match rng.weighted(&[40, 25, 10, 15, 10]) {
+                        let kind = match rng.weighted(&[40, 25, 10, 15, 10, 8]) {
                             0 => LendKind::MakeRefA,
                             1 => LendKind::MakeRefB,
                             2 => LendKind::Lent,
                             3 => LendKind::ViaHelper,
-                            _ => LendKind::CloneOfSelf,
+                            4 => LendKind::CloneOfSelf,
+                            _ => LendKind::MakeRefZ,
                         };
                         let n = if big && matches!(kind, LendKind::MakeRefA | LendKind::MakeRefB) {
                             *rng.pick(&[50u32, 200, 1000, 3000, 6000])
@@ -80,6 +81,10 @@ pub fn gen_c13(base_seed: u64, batch: &str, run: u64, rng: &mut Rng) -> Scenario
                 }
             }
             threads[t].push(Op::LendSession { slot, exclusive, steps });
+            // configuring the original afterwards must not release anything that was lent
+            if t == 0 && rng.chance(1, 8) {
+                threads[0].push(Op::NoVerifyInDrop { slot: 0 });
+            }
         }
     }
     if n_threads > 1 {
@@ -228,6 +233,15 @@ pub fn check_c13(scn: &Scenario) -> Checked {
             break;
         }
     }
+    // zero-sized lent values: every one constructed during the run was dropped by its end
+    if log.zst.0 != log.zst.1 {
+        violations.push(v(
+            "C13",
+            "dropped-exactly-once",
+            "zero-sized",
+            format!("{} zero-sized values (with a destructor) were lent via make_ref, {} were dropped by the end of the run", log.zst.0, log.zst.1),
+        ));
+    }
     // 4. values alive at the same time have distinct addresses
     if owner.len() <= 300 {
         let mut lives: Vec<(u32, u64, u64, u64)> = vec![];
@@ -235,7 +249,7 @@ pub fn check_c13(scn: &Scenario) -> Checked {
             if let LendWhat::Taken { val, addr, kind, .. } = &e.what {
                 // the shared lent value is legitimately seen many times; lent clones of the mock are
                 // not instrumented (no drop event to bound their lifetime)
-                if matches!(kind, LendKind::Lent | LendKind::CloneOfSelf) {
+                if matches!(kind, LendKind::Lent | LendKind::CloneOfSelf | LendKind::MakeRefZ) {
                     continue;
                 }
                 let end = dropped.get(val).and_then(|d| d.first()).map(|d| d.step).unwrap_or(u64::MAX);
